@@ -13,7 +13,8 @@ Spec/Json — RFC 8259 JSON texts over bytes (shared, import-free).
 * `Viable`    – a prefix that can still be extended to a valid text.
 * `lineCol`   – the validator module's line/column definition (1-based, columns in bytes,
                 LF / CR / CRLF each one line break).
-* `readJson`  – executable reference reader (fuelled descent producing a `JVal`).
+(The executable reference recogniser lives in `Spec/JsonPda.lean`; a `readJson : Bytes → Except E JVal`
+reader is not part of this file yet – `JVal` is provided for the properties that will add it.)
 -/
 namespace SV.Json
 
